@@ -1368,7 +1368,7 @@ func ruleDerefHeader(id string) func(*Checker) {
 					found := false
 					for _, x := range byField[f] {
 						if x.src != nil && sameLoc(x.src, sz.src) || (x.src != nil && x.src == sz.src) {
-							if x.st.Block() == sz.st.Block() || x.st.Block().Dominates(sz.st.Block()) || sz.st.Block().Dominates(x.st.Block()) {
+							if x.st.Block() == sz.st.Block() || blockDominates(x.st.Block(), sz.st.Block()) || blockDominates(sz.st.Block(), x.st.Block()) {
 								found = true
 							}
 						}
@@ -1379,7 +1379,7 @@ func ruleDerefHeader(id string) func(*Checker) {
 				}
 				tf := false
 				for _, x := range byField["Typeflag"] {
-					if k, isC := constInt(x.st.Val); isC && k == '0' && (x.st.Block() == sz.st.Block() || x.st.Block().Dominates(sz.st.Block()) || sz.st.Block().Dominates(x.st.Block())) {
+					if k, isC := constInt(x.st.Val); isC && k == '0' && (x.st.Block() == sz.st.Block() || blockDominates(x.st.Block(), sz.st.Block()) || blockDominates(sz.st.Block(), x.st.Block())) {
 						tf = true
 					}
 				}
